@@ -7,7 +7,7 @@ from sim.det import CLOCK
 ID = "C05"
 LEVEL = "exploration"
 TECHNIQUE = "deterministic simulation: seeded step schedules around a two-sided same-file conflict with a logging resolver callback; each scenario executed under several schedules and the outcomes compared"
-RULE = ("each case = flavour pair, conflict shape (create/create or edit/edit after a synchronised base), content pair (equal | empty vs non-empty | 1 byte | > 64 KiB so that ResolveFile streams), "
+RULE = ("each case = flavour pair, conflict shape (create/create, edit/edit after a synchronised base, or edit/edit after a base that was itself a silent merge of identical creations), content pair (equal | empty vs non-empty | 1 byte | > 64 KiB so that ResolveFile streams), "
         "resolver behaviour (pick local|remote x keep, new merged data x keep false, None, raises, non-tuple, wrong-length tuple, non-file first element; merged data x keep true is a recorded finding), "
         "order of the two user writes, and 3 seeded schedules (engine steps interleaved before, between and after the two writes; split intake). Oracles per run: the resolver is called exactly once iff "
         "the contents differ; its two handles carry the labels of the two sides and the bytes each side really holds; outcome table of the statement (content at the path on both sides, '.conflicted' "
@@ -196,6 +196,15 @@ def _plan(rng, case):
         plan.append(["U", case["base_side"], "create", "/f", "base"])
         plan.append(["Q"])
         ops = {0: ["U", 0, "write", "/f", c0], 1: ["U", 1, "write", "/f", c1]}
+    elif case["shape"] == "merge-edit":
+        # the base itself came into being as a silent merge: the same bytes created on both sides, in either intake order
+        b = case["base_side"]
+        plan.append(["U", b, "create", "/f", "base"])
+        plan.append(["U", 1 - b, "create", "/f", "base"])
+        for wh in rng.sample([0, 1, 2, 2], 4):
+            plan.append(["S", wh])
+        plan.append(["Q"])
+        ops = {0: ["U", 0, "write", "/f", c0], 1: ["U", 1, "write", "/f", c1]}
     else:
         ops = {0: ["U", 0, "create", "/f", c0], 1: ["U", 1, "create", "/f", c1]}
     steps(0, 3)
@@ -240,7 +249,7 @@ def _evaluate(case):
 def generate(rng, tier, index):
     flav = rng.choice(ALL_FLAVOURS)
     ckind = weighted(rng, (("equal", 2), ("empty-vs", 1), ("one-byte", 1), ("large", 1), ("small", 4)))
-    case = {"prop": ID, "cfg": {"flavour": flav}, "shape": rng.choice(["create", "edit"]), "ckind": ckind, "contents": list(_contents(ckind, index)),
+    case = {"prop": ID, "cfg": {"flavour": flav}, "shape": rng.choice(["create", "edit", "merge-edit"]), "ckind": ckind, "contents": list(_contents(ckind, index)),
             "behaviour": weighted(rng, tuple((b, 1 if b == "merge-keep" else 3) for b in BEHAVIOURS)), "first": rng.randrange(2), "base_side": rng.randrange(2), "family": "conflict", "rewind": rng.random() < 0.5}
     if rng.random() < 0.5:
         case["contents"].reverse()
